@@ -219,7 +219,12 @@ func gen(t *rapid.T) Case {
 	// reference form, destination pre-state, repetition, entry point
 	c.Ref.Form = rapid.SampledFrom([]string{"", "", "", "tag", "digest", "tag+digest"}).Draw(t, "refForm")
 	if rare(t, "pre", 3) {
-		c.Pre = "same-blob"
+		c.Pre = rapid.SampledFrom([]string{"same-blob", "named-blob", "named-blob", "damaged"}).Draw(t, "preKind")
+	} else if c.Declared.Kind == "wrong-digest" && rapid.Bool().Draw(t, "preNamesOther") {
+		c.Pre = "named-blob" // the destination holds the blob the (wrong) declaration names
+	}
+	if c.Dest == "layout" && c.Pre == "" && rare(t, "preDamaged", 3) {
+		c.Pre = "damaged"
 	}
 	if rare(t, "again", 2) {
 		c.Again = rapid.SampledFrom([]int{1, 2, 2}).Draw(t, "againKind")
